@@ -117,7 +117,7 @@ def _case(rng, kmax):
     return c
 
 def generate(rng, tier):
-    n, kmax = {'quick': (200, 10), 'thorough': (1500, 16), 'search': (600, 10)}[tier]
+    n, kmax = {'quick': (200, 10), 'thorough': (3000, 16), 'search': (600, 10)}[tier]
     return [_case(rng, kmax) for _ in range(n)]
 
 def signature(c):
